@@ -139,7 +139,10 @@ def avg_case(draw):
     vals = draw(st.lists(st.one_of(valid, valid, impossible), min_size=n, max_size=n))
     # weights are numerators over their sum: small integers, and now and then a huge one, so that the other shares become 1e-3 .. 1e-6
     ints = draw(st.lists(st.integers(0, 20) | st.integers(0, 20) | st.sampled_from([10**3, 10**5, 10**6]), min_size=n, max_size=n).filter(lambda w: sum(w) > 0))
-    return dict(kind="avg", percentages=vals, weights_num=ints)
+    # how the caller holds the numbers (the scripts pass lists; rows of a table are arrays / Series); the SAME objects are handed to the
+    # helper twice, as a caller that averages a table in two passes does
+    cont = draw(st.sampled_from(["list", "tuple", "ndarray", "series"]))
+    return dict(kind="avg", percentages=vals, weights_num=ints, container=cont)
 
 
 def is_valid(p):
@@ -154,12 +157,22 @@ def avg(ctx, c):
     w = [float(x) for x in w_exact]
     valid = [(x, wx) for x, wx in zip(p, w_exact) if is_valid(x)]
     wsum = sum(wx for _, wx in valid)
+    import pandas as pd
+    mk = {"list": list, "tuple": tuple, "ndarray": lambda x: np.array(x, dtype=float), "series": lambda x: pd.Series(x, dtype=float)}[c.get("container", "list")]
+    p_obj, w_obj = mk(p), mk(w)
     try:
         with quiet():
-            got = ImportUtilities.weighted_average_percentages(list(p), list(w))
+            got = ImportUtilities.weighted_average_percentages(p_obj, w_obj)
+            again = ImportUtilities.weighted_average_percentages(p_obj, w_obj)
     except AssertionError:
         ctx.fail("averaging-helper-rejects-well-formed-input", "percentages %r, weights %r (sum %r)" % (p, w, sum(w)), c)
         return
+    ctx.event("container_" + c.get("container", "list"))
+    if not (again == got or (again != again and got != got)):
+        changed = [(i, x, y) for i, (x, y) in enumerate(zip(p, list(p_obj))) if not (x == y)]
+        ctx.fail("averaging-the-same-data-twice-gives-different-results",
+                 "first %.12g, second %.12g on the same %s; entries of the caller's data altered by the first call: %r" %
+                 (got, again, c.get("container", "list"), changed[:4]), c)
     if any(not is_valid(x) for x in p) and len({x for x, wx in valid if wx > 0}) >= 2:
         ctx.nontrivial_case(c)
     ctx.event("no_valid_weight" if wsum == 0 else ("some_impossible" if len(valid) < len(p) else "all_valid"))
